@@ -157,14 +157,15 @@ def mustUnderstand (d : Directives) := d.has (str% "must-understand")
 def isPublic (d : Directives) := d.has (str% "public")
 def immutable (d : Directives) := d.has (str% "immutable")
 
-/-- CCResponseDirectives.NoCache + RawCSVSeq.Value: `none` = directive absent,
+/-- CCResponseDirectives.NoCache + RawCSVSeq.Value (fieldNameSeq: the unquoted argument is a list of field names,
+    split at every comma): `none` = directive absent,
     `some none` = unqualified, `some (some fields)` = qualified -/
 def respNoCache (d : Directives) : Option (Option (List Str)) :=
   match alookup (str% "no-cache") d with
   | none => none
   | some v =>
     let raw := parseQuotedString v
-    if raw.isEmpty then some none else some (some (trimmedCSV raw))
+    if raw.isEmpty then some none else some (some (fieldNames raw))
 
 def noCacheUnqualified (d : Directives) : Bool := d.respNoCache = some none
 end Directives
